@@ -1143,6 +1143,33 @@ func corpus(seed int64) []rescorr.Case {
 		hdr("b", "a") + "  augment \"/pa:c/pa:output\" { leaf b1 { type string; } }\n" +
 			"  augment \"/pa:c\" { container input { leaf b2 { type string; } } }\n}\n"},
 		cAug{expect: gen.C07NoChildren}, cAug{expect: gen.C07Collide})
+	// chains of augments that only become applicable after FixChoice (gen.LeftoverChains: every link's
+	// target lies below the implied case of a short-hand choice member, 2-3 links across modules, every
+	// assignment of module names to the links, links that add short-hand choice members of their own,
+	// complete chains and chains with a link missing), each unsplit and with an augment-free submodule
+	// split off the target module: the stage after FixChoice is a fixpoint, so every link of a complete
+	// chain is applied exactly once whatever the module order, and exactly the links after a gap are
+	// reported
+	for _, c := range gen.LeftoverChains(chainDepth) {
+		nsmod := map[string]string{"urn:t": "t"}
+		var augs []cAug
+		for _, l := range c.Links {
+			nsmod["urn:"+l.Module] = l.Module
+			if !l.Found {
+				augs = append(augs, cAug{expect: gen.C07MissingT})
+				continue
+			}
+			var nodes []gen.C07Node
+			for _, p := range l.Nodes {
+				nodes = append(nodes, nd("t", "/t"+p, "urn:"+l.Module))
+			}
+			augs = append(augs, cAug{expect: gen.C07Apply, nodes: nodes})
+		}
+		out = append(out, corpusCase(c.Label, c.Names, c.Texts, nsmod, augs, nil, seed+int64(len(out))))
+		for _, sp := range c.Splits {
+			out = append(out, corpusCase(c.Label+" split="+sp.Sub, sp.Names, sp.Texts, nsmod, augs, nil, seed+int64(len(out))))
+		}
+	}
 	return out
 }
 
@@ -1203,6 +1230,9 @@ func shapeOf(i int) int {
 	return shape
 }
 
+// chainDepth: longest chain of gen.LeftoverChains in the corpus (4 in the thorough tier).
+var chainDepth = 3
+
 func main() {
 	f := lib.ParseFlags()
 	if lib.IsChild() {
@@ -1214,6 +1244,9 @@ func main() {
 		return
 	}
 	res := lib.NewResult("C07", f)
+	if f.Thorough() {
+		chainDepth = 4
+	}
 	n := 3600
 	if f.Thorough() {
 		n = 120000
